@@ -127,6 +127,45 @@ Theorem unknown_class_costs_nothing gf uop uadd present cls count n :
   op_cost gf uop uadd present cls count n = 0.
 Proof. intros B C D E. unfold op_cost. rewrite B, C, D, E. destruct (mem cls act_classes); reflexivity. Qed.
 
+(* ---- memory entries (memory_read_energy / memory_write_energy, qenergy.py:74-202): which costs a placement pays ----
+   [dram_rd], [dram_wr]: one DRAM access of all bits; [sram_rd], [sram_wr]: one SRAM access of the tensor.  At the model's
+   inputs (read) and outputs (write) the placement option is overridden: DRAM when rd_wr_on_io, otherwise SRAM. *)
+Definition eff_mode (at_io rw : bool) (mode : string) : string :=
+  if at_io then (if rw then "dram" else "sram")%string else mode.
+Definition mem_read (at_io rw : bool) (mode : string) (dram_rd sram_rd sram_wr : Q) : Q :=
+  let m := eff_mode at_io rw mode in
+  if String.eqb m "dram" then dram_rd + (if rw then sram_wr else 0)
+  else if String.eqb m "sram" then sram_rd else 0.
+Definition mem_write (at_io rw : bool) (mode : string) (dram_wr sram_rd sram_wr : Q) : Q :=
+  let m := eff_mode at_io rw mode in
+  if String.eqb m "dram" then (if rw then sram_rd else 0) + dram_wr
+  else if String.eqb m "sram" then sram_wr else 0.
+
+(* a placement that is neither DRAM nor SRAM (hard-wired "fixed" weights) costs nothing inside the network *)
+Theorem mem_other_placement_costs_nothing rw mode a b c :
+  String.eqb mode "dram" = false -> String.eqb mode "sram" = false ->
+  mem_read false rw mode a b c = 0 /\ mem_write false rw mode a b c = 0.
+Proof. intros D S. unfold mem_read, mem_write, eff_mode. rewrite D, S. split; reflexivity. Qed.
+(* at the model's inputs / outputs the placement option is irrelevant *)
+Theorem mem_io_ignores_placement rw mode mode' a b c :
+  mem_read true rw mode a b c = mem_read true rw mode' a b c /\ mem_write true rw mode a b c = mem_write true rw mode' a b c.
+Proof. unfold mem_read, mem_write, eff_mode. split; reflexivity. Qed.
+(* DRAM placement always pays the DRAM access -- with or without the staging through SRAM that rd_wr_on_io adds *)
+Theorem mem_dram_pays_dram_access rw dr dw sr sw : 0 <= sr -> 0 <= sw ->
+  dr <= mem_read false rw "dram" dr sr sw /\ dw <= mem_write false rw "dram" dw sr sw /\
+  mem_read false false "dram" dr sr sw == dr /\ mem_write false false "dram" dw sr sw == dw /\
+  mem_read false true "dram" dr sr sw == dr + sw /\ mem_write false true "dram" dw sr sw == sr + dw.
+Proof. intros Hr Hw. unfold mem_read, mem_write, eff_mode. cbn [String.eqb Ascii.eqb Bool.eqb].
+  destruct rw; repeat split; try ring; lra. Qed.
+Theorem mem_sram_pays_one_sram_access rw dr dw sr sw :
+  mem_read false rw "sram" dr sr sw = sr /\ mem_write false rw "sram" dw sr sw = sw.
+Proof. unfold mem_read, mem_write, eff_mode. split; reflexivity. Qed.
+Theorem mem_nonneg at_io rw mode d sr sw : 0 <= d -> 0 <= sr -> 0 <= sw ->
+  0 <= mem_read at_io rw mode d sr sw /\ 0 <= mem_write at_io rw mode d sr sw.
+Proof. intros Hd Hr Hw. unfold mem_read, mem_write. destruct (String.eqb (eff_mode at_io rw mode) "dram").
+  { destruct rw; split; lra. }
+  destruct (String.eqb (eff_mode at_io rw mode) "sram"); split; lra. Qed.
+
 (* one layer's contribution to the total is the sum of its four entries; the report's total is the sum over the layers *)
 Definition layer_total (inputs outputs parameters opc : Q) : Q := inputs + outputs + parameters + opc.
 Definition qsum4 (l : list (Q * Q * Q * Q)) : Q :=
